@@ -64,7 +64,7 @@ def Cert.initOK (c : Cert) : Bool :=
 def Cert.instrOK (c : Cert) : Instr → Bool
   | .alias x ys => ys.all (fun y => subset (c.pts y) (c.pts x))
   | .fresh x k => (c.pts x).contains (.fresh k)
-  | .load x y => (c.pts y).all (fun r => subset (c.cont r) (c.pts x))
+  | .load x y => subset (c.pts y) c.regions && (c.pts y).all (fun r => subset (c.cont r) (c.pts x))
   | .storeRef y x => (c.pts y).all (fun r => subset (c.pts x) (c.cont r) && c.writes.contains r)
   | .write x => subset (c.pts x) c.writes
   | .ret _ => true
